@@ -11,7 +11,11 @@
       (`tagShape` = name ++ "-" ++ 20 lower-case hex digits),
     * the decomposition of `processRequest` around the Via modifier (`preVia` / `postVia`),
     * the composition of instances into a forwarding loop (`reinject`, `runLoop`),
-    * the decidable form of the property's conclusion (`holdsSpec`) used by the `holds` verb.
+    * the decidable form of the property's conclusion (`holdsSpec`) used by the `holds` verb,
+    * CONNECT requests (`Req.processConnect`): the head an upstream HTTP(S) proxy receives
+      (`connectHead`), its delivery to the next instance (`reinjectConnect`, `runConnectLoop`), the
+      upstream scheme as a parameter (`httpsify`) and the variant that forgets the header for `https`,
+    * instance identity `id : ι → Tag` (`instCfg`).
 
   Core-only.
 -/
@@ -253,6 +257,147 @@ def holdsSpec (tag : Bytes) (minor : Nat) (linesIn : List Bytes) (obs : Observed
     if own then .loopNotRefused
     else if viaElements out == els ++ [ownElement tag minor] then .ok
     else .notAppended
+
+/-! ### CONNECT: the head an upstream proxy receives, and loops of CONNECT requests
+
+  `Req.processConnect` is the executable model of `proxyConn.handleConnectRequest`; a CONNECT that is
+  forwarded to an upstream HTTP or HTTPS proxy goes out as ONE message head (`dialviaConnectHead`:
+  the clone of the modified client header — `d.ProxyConnectHeader = req.Header.Clone()` in
+  `connectHTTP`, for BOTH proxy schemes); a direct dial and a SOCKS5 upstream send no HTTP message
+  at all (the SOCKS request names the authority only — no header can travel there). -/
+
+/-- the CONNECT head put on the connection to the upstream proxy, if the CONNECT was forwarded as an
+    HTTP message (`none`: refused, intercepted, direct dial, SOCKS5, route error) -/
+def connectHead : ConnectOutcome → Option OutMsg
+  | .tunnel a => a.sent.head?.map (·.msg)
+  | _ => none
+
+/-- an upstream connection is opened on behalf of the CONNECT -/
+def isTunnel : ConnectOutcome → Bool
+  | .tunnel _ => true
+  | _ => false
+
+/-- the CONNECT passed the modifier stack: a tunnel is opened or the connection is intercepted -/
+def connectPassed : ConnectOutcome → Bool
+  | .tunnel _ | .mitm => true
+  | _ => false
+
+def isConnectLoopRefusal : ConnectOutcome → Bool
+  | .refused 400 .loop => true
+  | _ => false
+
+/-- header of a CONNECT as the Via modifier receives it; `.error o`: the request ended with `o`
+    before reaching the modifier -/
+def preViaConnect (cfg : Cfg) (c : ConnectReq) : Except ConnectOutcome (GoReq × HMap) :=
+  match readRequest c.asRequest with
+  | .error _ => .error .unreadable
+  | .ok g0 =>
+    let g := { g0 with header := goDel g0.header (bs "X-Martian-Terminate-Tls") }
+    match securityCheck cfg g with
+    | some why => .error (.refused why.status why)
+    | none =>
+      match badFraming (removeHopByHop g.header) with
+      | none => .error .badRequest
+      | some h2 => .ok (g, h2)
+
+/-- "no other refusal": the CONNECT reaches the Via modifier -/
+def connectReachesVia (cfg : Cfg) (c : ConnectReq) : Bool :=
+  match preViaConnect cfg c with
+  | .ok _ => true
+  | .error _ => false
+
+/-- the header handed to `martian.Proxy.connect`, given what the Via modifier produced -/
+def connectFinalHeader (cfg : Cfg) (h3 : HMap) : HMap :=
+  let h4 := applyRules cfg.connectRules h3
+  if (HMap.get h4 (bs "User-Agent")).isNone then goSet h4 (bs "User-Agent") [] else h4
+
+/-- The CONNECT request the next proxy reads when the head `o` is delivered to its listener (the
+    dialer always writes HTTP/1.1; every value is one field line). -/
+def reinjectConnect (o : OutMsg) : ConnectReq :=
+  { authority := o.target, minor := 1, fields := o.fields.flatMap fun e => e.2.map fun v => (e.1, v) }
+
+/-- A loop of CONNECT requests over upstream-proxy links: instance `i mod n` handles the CONNECT;
+    when it forwards a head to its upstream proxy, that head is delivered to the next instance.
+    `proc` is the CONNECT handler (the code: `processConnect`). A tunnel without a head (direct
+    dial, SOCKS5) ends the sequence of CONNECT messages. -/
+def runConnectLoopWith (proc : Cfg → Ctx → ConnectReq → ConnectOutcome) (insts : List (Cfg × Ctx)) :
+    Nat → Nat → ConnectReq → List ConnectOutcome
+  | 0, _, _ => []
+  | fuel + 1, i, c =>
+    match insts[i % insts.length]? with
+    | none => []
+    | some (cfg, ctx) =>
+      let o := proc cfg ctx c
+      match connectHead o with
+      | some head => o :: runConnectLoopWith proc insts fuel (i + 1) (reinjectConnect head)
+      | none => [o]
+
+def runConnectLoop (insts : List (Cfg × Ctx)) : Nat → Nat → ConnectReq → List ConnectOutcome :=
+  runConnectLoopWith processConnect insts
+
+/-- NOT the code — the variant in which the dialer for an `https` upstream proxy is not handed the
+    client's header (`ProxyConnectHeader` set in the plain-`http` branch only): the head sent to an
+    HTTPS proxy then consists of the dialer's own fields and `GetProxyConnectHeader` alone. -/
+def connectDispatchNoHdrHttps (cfg : Cfg) (authority : Bytes) (h : HMap) : ConnectOutcome :=
+  match cfg.mitm, cfg.upstream with
+  | false, .https hp auth =>
+    .tunnel { via := .https, hopAddr := hp,
+              sent := [⟨.proxy, true, dialviaConnectHead authority auth [] (connectExtra cfg)⟩] }
+  | _, _ => connectDispatch cfg authority h
+
+def processConnectNoHdrHttps (cfg : Cfg) (_ctx : Ctx) (c : ConnectReq) : ConnectOutcome :=
+  match readRequest c.asRequest with
+  | .error _ => .unreadable
+  | .ok g0 =>
+    let g := { g0 with header := goDel g0.header (bs "X-Martian-Terminate-Tls") }
+    match connectModified cfg g with
+    | .error o => o
+    | .ok h => connectDispatchNoHdrHttps cfg c.authority h
+
+/-! ### the upstream scheme as a parameter -/
+
+/-- the same configuration with every `http` upstream proxy reached over TLS instead -/
+def httpsify (cfg : Cfg) : Cfg :=
+  match cfg.upstream with
+  | .http hp auth => { cfg with upstream := .https hp auth }
+  | _ => cfg
+
+/-- an outcome with the hop (where the message is sent) forgotten: what is sent stays -/
+def eraseHop : Outcome → Outcome
+  | .forwarded _ out => .forwarded (.direct []) out
+  | o => o
+
+/-- a CONNECT outcome with the dialled connection forgotten, the head (if any) kept -/
+inductive ConnectView where
+  | refused (status : Nat) (why : Refusal)
+  | badRequest | unreadable | mitm | routeError
+  | tunnelHead (head : OutMsg)
+  | tunnelRaw
+  deriving Repr
+
+def connectView : ConnectOutcome → ConnectView
+  | .refused st why => .refused st why
+  | .badRequest => .badRequest
+  | .unreadable => .unreadable
+  | .mitm => .mitm
+  | .routeError => .routeError
+  | .tunnel a => match a.sent.head? with
+    | some s => .tunnelHead s.msg
+    | none => .tunnelRaw
+
+/-! ### instance identity
+
+  The element an instance emits is `proto ++ " " ++ id i` where `id : Instance → Tag` is fixed when the
+  instance is constructed (`header.NewViaModifier` draws 10 random bytes per modifier, i.e. per
+  `NewHTTPProxy` call).  What the code must guarantee is that `id` is INJECTIVE over the instances
+  constructed in one process (up to the 2⁻⁸⁰ collision chance of the random suffix): the theorems of
+  section H take it as a hypothesis, and `c18_config_derived_tag_witness` shows that an identifier
+  that is a function of the configuration value (two instances built from one config share it)
+  refuses a legitimate chain. -/
+
+/-- the request pipeline configuration of instance `i` of a fleet: the shared settings `base` with
+    the instance's own identifier -/
+def instCfg {ι : Type} (id : ι → Bytes) (base : ι → Cfg) (i : ι) : Cfg := { base i with tag := id i }
 
 end C18
 end FwdVerif
